@@ -8,9 +8,9 @@ CLASSES = {
     "C11": {"order_permutation", "order_insertion", "rebuild_differs", "panic", "trace_rejected"},
 }
 CFGS = {
-    ("C05", "quick"): ["MC_Action_quickA.cfg", "MC_Action_quickB.cfg", "MC_Action_quickE.cfg", "MC_Action_quickF.cfg"],
-    ("C05", "thorough"): ["MC_Action_thoroughA.cfg", "MC_Action_thoroughB.cfg", "MC_Action_thoroughC.cfg", "MC_Action_quickE.cfg", "MC_Action_thoroughF.cfg"],
-    ("C06", "quick"): ["MC_Action_quickB.cfg", "MC_Action_quickD.cfg", "MC_Action_quickE.cfg"],
+    ("C05", "quick"): ["MC_Action_quickA.cfg", "MC_Action_quickB.cfg", "MC_Action_quickE.cfg", "MC_Action_quickF.cfg", "MC_Action_quickG.cfg"],
+    ("C05", "thorough"): ["MC_Action_thoroughA.cfg", "MC_Action_thoroughB.cfg", "MC_Action_thoroughC.cfg", "MC_Action_quickE.cfg", "MC_Action_thoroughF.cfg", "MC_Action_quickG.cfg"],
+    ("C06", "quick"): ["MC_Action_quickB.cfg", "MC_Action_quickD.cfg", "MC_Action_quickE.cfg", "MC_Action_quickG.cfg"],
     ("C06", "thorough"): ["MC_Action_thoroughB.cfg", "MC_Action_thoroughD.cfg", "MC_Action_quickE.cfg", "MC_Action_thoroughA.cfg"],
     ("C11", "quick"): ["MC_Action_quickD.cfg"],
     ("C11", "thorough"): ["MC_Action_thoroughD.cfg", "MC_Action_thoroughD4.cfg", "MC_Action_thoroughC.cfg"],
